@@ -45,6 +45,9 @@ def make_trainer(kind, idx):
         return STDP(lr, -lr / 2, 4.0, 2.0)
     if kind == "mstdpet":
         return MSTDPET(lr, -lr / 2, 4.0, 2.0, 3.0)
+    if kind == "homeo":  # a rule with exactly ONE monitor per cell (a cell with a custom monitor then has exactly two)
+        from inferno.learn import LinearHomeostasis
+        return LinearHomeostasis(lr / 2, 0.5, "weight")
     if kind == "kernel":
         return KernelSTDP(exp_stdp_post_kernel, exp_stdp_pre_kernel, dict(learning_rate=lr, time_constant=4.0), dict(learning_rate=-lr / 2, time_constant=2.0))
     raise ValueError(kind)
@@ -362,7 +365,7 @@ class LifecycleSystem:
     # ---- differential oracle -------------------------------------------------------
     # observe the shared postsynaptic population and are legitimately pooled across cells (elig_pre filters the pooled
     # postsynaptic trace, so it inherits whatever that monitor recorded before the cell joined)
-    SHARED_NAMES = ("trace_post", "spike_post", "elig_pre")
+    SHARED_NAMES = ("trace_post", "spike_post", "elig_pre", "spike_rate")
 
     def differential(self, st, history, tally):
         """(1) the data of trainer i's monitors equals the data in the world where the other trainer's events never happened;
@@ -539,7 +542,7 @@ def run(rep):
     depth1 = 5 if quick else 7
     depth2 = 3 if quick else 5
     cap = 2500 if quick else 20000
-    for k in ("stdp", "mstdpet", "kernel"):
+    for k in ("stdp", "mstdpet", "kernel", "homeo"):
         jobs.append((lifecycle_shard, ((k, k), 1, True, depth1, cap)))
     pairs = (("stdp", "stdp"), ("mstdpet", "stdp"), ("stdp", "kernel"), ("kernel", "mstdpet"))
     if not quick:
